@@ -517,3 +517,236 @@ Proof.
   - destruct Ro as (O1 & _). destruct (werr_cases _ _ O1 Hnfo) as (Hc & ->).
     destruct (sr_child ro); destruct Hc as [Hc|[Hc|[Hc|Hc]]]; rewrite Hc; reflexivity.
 Qed.
+
+(* ---- the step theorem at the level of worlds --------------------------------------------------------------------- *)
+(* the specification state [sw] abstracts the world [w] seen through view [vi]: same file system, same view
+   (the working directory plays no role for absolute paths) *)
+Definition absw (w : world) (vi : nat) (sw : sworld) : Prop :=
+  sw_fs sw = w_fs w /\ nth_error (w_views w) vi = Some (sv_view (sw_sv sw)).
+
+(* the calls covered, with the conditions under which they are: clean absolute paths, inside the domain of the
+   walk bridge ([path_ok]), outside the listed deviation classes *)
+Definition covered (vi : nat) (sw : sworld) (c : call) : Prop :=
+  let s := sw_fs sw in
+  let sv := sw_sv sw in
+  step_hyps s sv /\
+  match c with
+  | CStat vi' p => vi' = vi /\ exists cs, p = abs_path cs /\ path_ok s sv SlStat cs
+  | CLstat vi' p => vi' = vi /\ exists cs, p = abs_path cs /\ path_ok s sv SlLstat cs
+  | CReadlink vi' p => vi' = vi /\ exists cs, p = abs_path cs /\ path_ok s sv SlLstat cs
+  | CChtimes vi' p => vi' = vi /\ exists cs, p = abs_path cs /\ path_ok s sv SlEval cs
+  | CChmod vi' p _ => vi' = vi /\ exists cs, p = abs_path cs /\ path_ok s sv SlEval cs
+  | CTruncate vi' p _ => vi' = vi /\ exists cs, p = abs_path cs /\ path_ok s sv SlEval cs
+  | CMkdir vi' p _ =>
+      vi' = vi /\ exists w cl, p = abs_path (w ++ [cl]) /\ path_ok s sv SlLstat (w ++ [cl])
+                               /\ no_setgid_parent s sv (w ++ [cl])
+  | CSymlink vi' t p =>
+      vi' = vi /\ t = clean Linux t /\
+      exists w cl, p = abs_path (w ++ [cl]) /\ path_ok s sv SlLstat (w ++ [cl]) /\ no_setgid_parent s sv (w ++ [cl])
+  | CRemove vi' p =>
+      vi' = vi /\ sym_single (f_heap s) /\ exists w cl, p = abs_path (w ++ [cl]) /\ path_ok s sv SlLstat (w ++ [cl])
+  | CLink vi' o p =>
+      vi' = vi /\ exists co w cl, o = abs_path co /\ p = abs_path (w ++ [cl]) /\ path_ok s sv SlLstat co
+                                  /\ path_ok s sv SlLstat (w ++ [cl]) /\ not_symlink s sv co
+  | _ => False
+  end.
+
+Lemma absw_with_fs (w : world) (vi : nat) (sw : sworld) (s1 : fsys) :
+  absw w vi sw -> absw (with_fs w s1) vi {| sw_fs := s1; sw_sv := sw_sv sw |}.
+Proof. intros (_ & Hv). split; [reflexivity|exact Hv]. Qed.
+
+Lemma stat_sim_refl (r : pres) : stat_sim r r.
+Proof. left. reflexivity. Qed.
+
+(* unfolding the two step functions, with the paths kept abstract *)
+Section StepEqns.
+  Variables (w : world) (vi : nat) (v : view).
+  Hypothesis Hv : nth_error (w_views w) vi = Some v.
+
+  Lemma impl_lift (c : call) (f : fsys * res) :
+    wstep w c = lift w f -> (forall a b c' d h, c <> COpenFile a b c' d \/ snd f <> RHandle h) ->
+    (match c with COpenFile _ _ _ _ => False | _ => True end) ->
+    impl_step_proj w c = (with_fs w (fst f), proj_res Linux (snd f)).
+  Proof.
+    intros E _ Hc. unfold impl_step_proj. rewrite E. unfold lift. destruct c; try reflexivity. destruct Hc.
+  Qed.
+
+  Lemma impl_ro (c : call) (r : res) :
+    wstep w c = (w, r) -> (match c with COpenFile _ _ _ _ => False | _ => True end) ->
+    impl_step_proj w c = (w, proj_res Linux r).
+  Proof. intros E Hc. unfold impl_step_proj. rewrite E. destruct c; try reflexivity. destruct Hc. Qed.
+
+  Lemma wstep_mkdir p perm : wstep w (CMkdir vi p perm) = lift w (mkdir (w_fs w) v p perm).
+  Proof. unfold wstep, on_view. rewrite Hv. reflexivity. Qed.
+  Lemma wstep_remove p : wstep w (CRemove vi p) = lift w (remove (w_fs w) v p).
+  Proof. unfold wstep, on_view. rewrite Hv. reflexivity. Qed.
+  Lemma wstep_link o p : wstep w (CLink vi o p) = lift w (link (w_fs w) v o p).
+  Proof. unfold wstep, on_view. rewrite Hv. reflexivity. Qed.
+  Lemma wstep_symlink o p : wstep w (CSymlink vi o p) = lift w (symlink (w_fs w) v o p).
+  Proof. unfold wstep, on_view. rewrite Hv. reflexivity. Qed.
+  Lemma wstep_truncate p size : wstep w (CTruncate vi p size) = lift w (truncate (w_fs w) v p size).
+  Proof. unfold wstep, on_view. rewrite Hv. reflexivity. Qed.
+  Lemma wstep_chmod p mode : wstep w (CChmod vi p mode) = lift w (chmod (w_fs w) v p mode).
+  Proof. unfold wstep, on_view. rewrite Hv. reflexivity. Qed.
+  Lemma wstep_readlink p : wstep w (CReadlink vi p) = (w, readlink (w_fs w) v p).
+  Proof. unfold wstep, on_view. rewrite Hv. reflexivity. Qed.
+  Lemma wstep_chtimes p : wstep w (CChtimes vi p) = (w, chtimes (w_fs w) v p).
+  Proof. unfold wstep, on_view. rewrite Hv. reflexivity. Qed.
+  Lemma wstep_stat p : wstep w (CStat vi p) = (w, stat_gen SlStat (w_fs w) v p).
+  Proof. unfold wstep, on_view. rewrite Hv. reflexivity. Qed.
+  Lemma wstep_lstat p : wstep w (CLstat vi p) = (w, stat_gen SlLstat (w_fs w) v p).
+  Proof. unfold wstep, on_view. rewrite Hv. reflexivity. Qed.
+End StepEqns.
+
+Lemma spec_keep (sw : sworld) (r : fsys * pres) :
+  ({| sw_fs := fst r; sw_sv := sw_sv sw |}, snd r) = ({| sw_fs := fst r; sw_sv := sw_sv sw |}, snd r).
+Proof. reflexivity. Qed.
+
+Lemma spec_mkdir sw vi p perm : spec_step true sw (CMkdir vi p perm)
+  = ({| sw_fs := fst (k_mkdir (sw_fs sw) (sw_sv sw) p perm); sw_sv := sw_sv sw |}, snd (k_mkdir (sw_fs sw) (sw_sv sw) p perm)).
+Proof. reflexivity. Qed.
+Lemma spec_remove sw vi p : spec_step true sw (CRemove vi p)
+  = ({| sw_fs := fst (go_remove (sw_fs sw) (sw_sv sw) p); sw_sv := sw_sv sw |}, snd (go_remove (sw_fs sw) (sw_sv sw) p)).
+Proof. reflexivity. Qed.
+Lemma spec_link sw vi o p : spec_step true sw (CLink vi o p)
+  = ({| sw_fs := fst (k_link true (sw_fs sw) (sw_sv sw) o p); sw_sv := sw_sv sw |}, snd (k_link true (sw_fs sw) (sw_sv sw) o p)).
+Proof. reflexivity. Qed.
+Lemma spec_symlink sw vi o p : spec_step true sw (CSymlink vi o p)
+  = ({| sw_fs := fst (k_symlink (sw_fs sw) (sw_sv sw) o p); sw_sv := sw_sv sw |}, snd (k_symlink (sw_fs sw) (sw_sv sw) o p)).
+Proof. reflexivity. Qed.
+Lemma spec_truncate sw vi p size : spec_step true sw (CTruncate vi p size)
+  = ({| sw_fs := fst (k_truncate (sw_fs sw) (sw_sv sw) p size); sw_sv := sw_sv sw |}, snd (k_truncate (sw_fs sw) (sw_sv sw) p size)).
+Proof. reflexivity. Qed.
+Lemma spec_chmod sw vi p mode : spec_step true sw (CChmod vi p mode)
+  = ({| sw_fs := fst (k_chmod (sw_fs sw) (sw_sv sw) p mode); sw_sv := sw_sv sw |}, snd (k_chmod (sw_fs sw) (sw_sv sw) p mode)).
+Proof. reflexivity. Qed.
+Lemma spec_readlink sw vi p : spec_step true sw (CReadlink vi p) = (sw, k_readlink (sw_fs sw) (sw_sv sw) p).
+Proof. reflexivity. Qed.
+Lemma spec_chtimes sw vi p : spec_step true sw (CChtimes vi p) = (sw, k_utimes (sw_fs sw) (sw_sv sw) p).
+Proof. reflexivity. Qed.
+Lemma spec_stat sw vi p : spec_step true sw (CStat vi p) = (sw, k_stat true (sw_fs sw) (sw_sv sw) p).
+Proof. reflexivity. Qed.
+Lemma spec_lstat sw vi p : spec_step true sw (CLstat vi p) = (sw, k_stat false (sw_fs sw) (sw_sv sw) p).
+Proof. reflexivity. Qed.
+
+(* a mutating call: from the call-level equation to the world level *)
+Lemma world_of_lift (w : world) (vi : nat) (sw : sworld) (c : call) (f : fsys * res) (g : fsys * pres) :
+  absw w vi sw ->
+  impl_step_proj w c = (with_fs w (fst f), proj_res Linux (snd f)) ->
+  spec_step true sw c = ({| sw_fs := fst g; sw_sv := sw_sv sw |}, snd g) ->
+  (fst f, proj_res Linux (snd f)) = g ->
+  stat_sim (snd (impl_step_proj w c)) (snd (spec_step true sw c))
+  /\ absw (fst (impl_step_proj w c)) vi (fst (spec_step true sw c)).
+Proof.
+  intros Ha Ei Es E. rewrite Ei, Es, <- E. cbn [fst snd]. split; [apply stat_sim_refl|]. exact (absw_with_fs w vi sw _ Ha).
+Qed.
+
+Lemma world_of_ro (w : world) (vi : nat) (sw : sworld) (c : call) (r : res) (g : pres) :
+  absw w vi sw ->
+  impl_step_proj w c = (w, proj_res Linux r) -> spec_step true sw c = (sw, g) -> stat_sim (proj_res Linux r) g ->
+  stat_sim (snd (impl_step_proj w c)) (snd (spec_step true sw c))
+  /\ absw (fst (impl_step_proj w c)) vi (fst (spec_step true sw c)).
+Proof. intros Ha Ei Es E. rewrite Ei, Es. cbn [fst snd]. split; [exact E|exact Ha]. Qed.
+
+Theorem step_world (w : world) (vi : nat) (sw : sworld) (c : call) :
+  absw w vi sw -> covered vi sw c ->
+  stat_sim (snd (impl_step_proj w c)) (snd (spec_step true sw c))
+  /\ absw (fst (impl_step_proj w c)) vi (fst (spec_step true sw c)).
+Proof.
+  intros Ha (H & Hc). pose proof Ha as (Hfs & Hv).
+  destruct c; try (destruct Hc; fail); cbn [covered] in Hc.
+  - (* Mkdir *)
+    destruct Hc as (-> & ww & cl & Ep & Hp & Hsg).
+    apply (world_of_lift w vi sw _ (mkdir (w_fs w) (sv_view (sw_sv sw)) p perm) (k_mkdir (sw_fs sw) (sw_sv sw) p perm) Ha).
+    + apply (impl_lift w _ _ (wstep_mkdir w vi _ Hv p perm)); [left; discriminate|exact I].
+    + apply spec_mkdir.
+    + rewrite <- Hfs, Ep. exact (step_mkdir (sw_fs sw) (sw_sv sw) ww cl perm H Hp Hsg).
+  - (* Remove *)
+    destruct Hc as (-> & Hss & ww & cl & Ep & Hp).
+    apply (world_of_lift w vi sw _ (remove (w_fs w) (sv_view (sw_sv sw)) p) (go_remove (sw_fs sw) (sw_sv sw) p) Ha).
+    + apply (impl_lift w _ _ (wstep_remove w vi _ Hv p)); [left; discriminate|exact I].
+    + apply spec_remove.
+    + rewrite <- Hfs, Ep. exact (step_remove (sw_fs sw) (sw_sv sw) ww cl H Hp Hss).
+  - (* Link *)
+    destruct Hc as (-> & co & ww & cl & Eo & Ep & Hpo & Hp & Hns).
+    apply (world_of_lift w vi sw _ (link (w_fs w) (sv_view (sw_sv sw)) o n) (k_link true (sw_fs sw) (sw_sv sw) o n) Ha).
+    + apply (impl_lift w _ _ (wstep_link w vi _ Hv o n)); [left; discriminate|exact I].
+    + apply spec_link.
+    + rewrite <- Hfs, Eo, Ep. exact (step_link (sw_fs sw) (sw_sv sw) co ww cl H Hpo Hp Hns).
+  - (* Symlink *)
+    destruct Hc as (-> & Ht & ww & cl & Ep & Hp & Hsg).
+    apply (world_of_lift w vi sw _ (symlink (w_fs w) (sv_view (sw_sv sw)) o n) (k_symlink (sw_fs sw) (sw_sv sw) o n) Ha).
+    + apply (impl_lift w _ _ (wstep_symlink w vi _ Hv o n)); [left; discriminate|exact I].
+    + apply spec_symlink.
+    + rewrite <- Hfs, Ep. rewrite Ht at 3. exact (step_symlink (sw_fs sw) (sw_sv sw) ww cl o H Hp Hsg).
+  - (* Readlink *)
+    destruct Hc as (-> & cs & Ep & Hp).
+    apply (world_of_ro w vi sw _ (readlink (w_fs w) (sv_view (sw_sv sw)) p) (k_readlink (sw_fs sw) (sw_sv sw) p) Ha).
+    + apply (impl_ro w _ _ (wstep_readlink w vi _ Hv p)). exact I.
+    + apply spec_readlink.
+    + rewrite <- Hfs, Ep, (step_readlink (sw_fs sw) (sw_sv sw) cs H Hp). apply stat_sim_refl.
+  - (* Truncate *)
+    destruct Hc as (-> & cs & Ep & Hp).
+    apply (world_of_lift w vi sw _ (truncate (w_fs w) (sv_view (sw_sv sw)) p size) (k_truncate (sw_fs sw) (sw_sv sw) p size) Ha).
+    + apply (impl_lift w _ _ (wstep_truncate w vi _ Hv p size)); [left; discriminate|exact I].
+    + apply spec_truncate.
+    + rewrite <- Hfs, Ep. exact (step_truncate (sw_fs sw) (sw_sv sw) cs size H Hp).
+  - (* Chmod *)
+    destruct Hc as (-> & cs & Ep & Hp).
+    apply (world_of_lift w vi sw _ (chmod (w_fs w) (sv_view (sw_sv sw)) p mode) (k_chmod (sw_fs sw) (sw_sv sw) p mode) Ha).
+    + apply (impl_lift w _ _ (wstep_chmod w vi _ Hv p mode)); [left; discriminate|exact I].
+    + apply spec_chmod.
+    + rewrite <- Hfs, Ep. exact (step_chmod (sw_fs sw) (sw_sv sw) cs mode H Hp).
+  - (* Chtimes *)
+    destruct Hc as (-> & cs & Ep & Hp).
+    apply (world_of_ro w vi sw _ (chtimes (w_fs w) (sv_view (sw_sv sw)) p) (k_utimes (sw_fs sw) (sw_sv sw) p) Ha).
+    + apply (impl_ro w _ _ (wstep_chtimes w vi _ Hv p)). exact I.
+    + apply spec_chtimes.
+    + rewrite <- Hfs, Ep, (step_chtimes (sw_fs sw) (sw_sv sw) cs H Hp). apply stat_sim_refl.
+  - (* Stat *)
+    destruct Hc as (-> & cs & Ep & Hp).
+    apply (world_of_ro w vi sw _ (stat_gen SlStat (w_fs w) (sv_view (sw_sv sw)) p) (k_stat true (sw_fs sw) (sw_sv sw) p) Ha).
+    + apply (impl_ro w _ _ (wstep_stat w vi _ Hv p)). exact I.
+    + apply spec_stat.
+    + rewrite <- Hfs, Ep. exact (step_stat (sw_fs sw) (sw_sv sw) SlStat cs H Hp).
+  - (* Lstat *)
+    destruct Hc as (-> & cs & Ep & Hp).
+    apply (world_of_ro w vi sw _ (stat_gen SlLstat (w_fs w) (sv_view (sw_sv sw)) p) (k_stat false (sw_fs sw) (sw_sv sw) p) Ha).
+    + apply (impl_ro w _ _ (wstep_lstat w vi _ Hv p)). exact I.
+    + apply spec_lstat.
+    + rewrite <- Hfs, Ep. exact (step_stat (sw_fs sw) (sw_sv sw) SlLstat cs H Hp).
+Qed.
+
+(* ---- histories ------------------------------------------------------------------------------------------------------- *)
+Fixpoint impl_run (w : world) (cs : list call) : world * list pres :=
+  match cs with
+  | [] => (w, [])
+  | c :: cs' => let w1 := fst (impl_step_proj w c) in
+                (fst (impl_run w1 cs'), snd (impl_step_proj w c) :: snd (impl_run w1 cs'))
+  end.
+
+Fixpoint spec_run (sw : sworld) (cs : list call) : sworld * list pres :=
+  match cs with
+  | [] => (sw, [])
+  | c :: cs' => let sw1 := fst (spec_step true sw c) in
+                (fst (spec_run sw1 cs'), snd (spec_step true sw c) :: snd (spec_run sw1 cs'))
+  end.
+
+(* every call of the history is covered on the state the SPECIFICATION run has reached *)
+Fixpoint covered_run (vi : nat) (sw : sworld) (cs : list call) : Prop :=
+  match cs with
+  | [] => True
+  | c :: cs' => covered vi sw c /\ covered_run vi (fst (spec_step true sw c)) cs'
+  end.
+
+Theorem history_world (vi : nat) : forall (cs : list call) (w : world) (sw : sworld),
+  absw w vi sw -> covered_run vi sw cs ->
+  Forall2 stat_sim (snd (impl_run w cs)) (snd (spec_run sw cs))
+  /\ absw (fst (impl_run w cs)) vi (fst (spec_run sw cs)).
+Proof.
+  induction cs as [|c cs IH]; intros w sw Ha Hc.
+  - split; [constructor|exact Ha].
+  - destruct Hc as (Hc1 & Hc2). destruct (step_world w vi sw c Ha Hc1) as (S1 & S2).
+    destruct (IH _ _ S2 Hc2) as (I1 & I2). cbn [impl_run spec_run fst snd].
+    split; [constructor; assumption|exact I2].
+Qed.
